@@ -88,6 +88,8 @@ def replay(data):
     common.use_repo()
     if data['method'] == 'get_r':
         msg = native_get_r(data['K'], tuple(data['vec']), data['m'])
+    elif data['method'] == 'match':
+        msg = native_match(data['K'], tuple(data['vec']))
     else:
         msg = native_get_w(data['K'], tuple(data['vec']))
     print(msg or 'contract holds on this input')
@@ -262,3 +264,201 @@ def ob_smt(run, only=None):
                             run.ob(oid, FAILED, 'BND', 'cpython-enum', detail=msg, witness=rp, confirmed=True, func='%s:%s.get_w' % (MOD, K))
     run.bulk('induction steps of get_r/get_w on concrete nodes for every child-class vector (native twin)', cnt - bad, 'BND', 'cpython-enum', 0.0, BOUNDED_OK)
     return n
+
+
+# ------------------------------------------------------------------------------------------------ MatchExpr: the recursion scheme
+M_SHAPES = [('ExprInt', [0]), ('ExprId', [0]), ('ExprCond', [3]), ('ExprMem', [1, 2]), ('ExprOp', [0, 1, 2, 3]), ('ExprSlice', [1]), ('ExprCompose', [1, 2, 3])]
+
+def native_match(K, vec):
+    """the recursion scheme on concrete nodes: a pattern equal to the node but for ONE child replaced by a wildcard must bind exactly that child;
+       one with a differing value field, arity or class must not match"""
+    from checks import C15smt
+    X = exprind.E()
+    try:
+        vs, a, kids = C15smt._variants(K, vec)
+        for (x, y, want, what) in vs:
+            if what in ('is_term',): continue
+            r = X.MatchExpr(x, y, [])
+            if bool(r is not False and r is not None and (r is True or isinstance(r, dict))) != want:
+                return 'MatchExpr(%s, %s, []) = %r although the pattern %s (differs in: %s)' % (x, y, r, 'is the expression' if want else 'is no instance', what)
+        from checks.C15smt import direct_children
+        for i, c in enumerate(kids):
+            if K == 'ExprMem' and i == 1: continue      # a segment selector is compared with ==, never matched (MatchExpr's design; selectors are not wildcard positions)
+            W = X.ExprId('W', c.get_size())
+            pat = a.visit(lambda n: W if n is c else n)
+            r = X.MatchExpr(a, pat, [W])
+            if not isinstance(r, dict) or list(r.keys()) != [W] or r[W] is not c:
+                return 'MatchExpr(%s, %s, [W]) = %r, expected {W: %s}' % (a, pat, r, c)
+            r = X.MatchExpr(a, pat, [W], {W: X.ExprId('elsewhere', c.get_size())})
+            if r is not False:
+                return 'MatchExpr(%s, %s, [W], {W: elsewhere}) = %r although W is already bound to another expression' % (a, pat, r)
+    except Exception as ex:
+        return 'MatchExpr on %s%s raised %s: %s' % (K, list(vec), type(ex).__name__, ex)
+    return None
+
+def ob_match(run):
+    """inductive step of MatchExpr for every class of e: which recursive calls are made, with which arguments, and what is returned"""
+    import z3
+    from pyvc import engine
+    from pyvc.engine import is_sym, find_method
+    from pyvc.runner import resolve
+    from pyvc.contract import Contract, SObj
+    from specs.duck import And, Or, Not
+    QN = '%s:MatchExpr' % MOD
+    TS = '%s:test_set' % MOD
+    mod, node, seg, path = resolve(QN)
+    run.function(QN, seg, path, node.lineno)
+    def tag(o): return getattr(o, 'tag', None) or ('o%d' % o.ident)
+    def EQ(x, y):
+        if x is y: return True
+        if not isinstance(x, SObj) or not isinstance(y, SObj): return False
+        a, b = sorted([tag(x), tag(y)])
+        return z3.Bool('EQ(%s,%s)' % (a, b))
+    calls = []
+    def r_match(ctx, e, m, tks, result=None):
+        out = ctx.choose(['fail', 'dict', 'true'])
+        calls.append(('M', e, m, tks, result, out))
+        return {'fail': False, 'dict': result, 'true': True}[out]
+    def r_ts(ctx, e, v, tks, result):
+        out = ctx.choose(['fail', 'dict', 'true'])
+        calls.append(('T', e, v, tks, result, out))
+        return {'fail': False, 'dict': result, 'true': True}[out]
+    IH = {QN: Contract(QN, result=r_match), TS: Contract(TS, result=r_ts, frame=['result']),
+          '%s:Expr.__ne__' % MOD: Contract('%s:Expr.__ne__' % MOD, inline=True)}
+    for name in CHILD_CLASSES:
+        fm = find_method(exprind.klass(name), '__eq__')
+        qn = '%s:%s.__eq__' % (fm[0].__module__, fm[0].__qualname__)
+        IH[qn] = Contract(qn, result=lambda ctx, c, o: EQ(c, o))
+    def build(K, vec, sfx=''):
+        kids = [exprind.child(nm, 'c%d%s:%s' % (i, sfx, nm)) for i, nm in enumerate(vec)]
+        sc = lambda nm: z3.Int(nm + sfx)
+        if K in ('ExprInt', 'ExprId'): f = {}
+        elif K == 'ExprCond': f = {'cond': kids[0], 'src1': kids[1], 'src2': kids[2]}
+        elif K == 'ExprMem': f = {'arg': kids[0], 'size': sc('size'), 'segm': kids[1] if len(kids) == 2 else None}
+        elif K == 'ExprOp': f = {'op': '+', 'args': tuple(kids)}
+        elif K == 'ExprSlice': f = {'arg': kids[0], 'start': sc('start'), 'stop': sc('stop')}
+        elif K == 'ExprCompose': f = {'args': [(c, sc('lo%d' % i), sc('hi%d' % i)) for i, c in enumerate(kids)]}
+        me = SObj(exprind.klass(K), f, fresh=False)
+        object.__setattr__(me, 'tag', 'node' + sfx); object.__setattr__(me, 'kids', kids)
+        return me
+    n = [0]
+    def emit(base, V, data):
+        if V.unsupported:
+            run.ob(base + ':generate', DOWNGRADED, 'SMT-A', 'pyvc', detail=V.unsupported, func=QN); return
+        if not V.cover or (V.returns == 0 and not V.raises):
+            run.ob(base + ':cover', ENGINE_ERR, 'SMT-A', 'z3', detail='no feasible path', func=QN); return
+        for cl, d in sorted(V.clauses.items()):
+            n[0] += 1
+            oid = base + ':' + cl
+            if d['status'] == 'unsat':
+                run.ob(oid, DISCHARGED, 'SMT-A', 'z3', d['secs'], func=QN)
+            elif d['status'] == 'sat':
+                w = d['witness'] or {}
+                msg = native_match(data['K'], tuple(data['vec']))
+                rp = run.write_replay(oid, {'obligation': oid, 'inputs': w, 'verifier': d['detail']}, REPLAY % dict(verif=common.VERIF, repo=common.REPO, data=dict(data, method='match')))
+                if msg is None:
+                    run.ob(oid, FAILED, 'SMT-A', 'z3', d['secs'], detail='inductive step fails (%s; model %s); the concrete instances of this shape do not show it' % (d['detail'], w), witness=rp, confirmed=False, func=QN)
+                else:
+                    run.ob(oid, FAILED, 'SMT-A', 'z3', d['secs'], detail='%s; model %s; native: %s' % (d['detail'], w, msg), witness=rp, confirmed=True, func=QN)
+            else:
+                run.ob(oid, DOWNGRADED, 'SMT-A', 'z3', d['secs'], detail='solver unknown', func=QN)
+    def pairs_of(K, e, m):
+        """(child of e, child of m, guard formula that must hold before the pair is matched)"""
+        fe, fm_ = e.fields, m.fields
+        if K == 'ExprCond': return [(fe[x], fm_[x], True) for x in ('cond', 'src1', 'src2')]
+        if K in ('ExprMem', 'ExprSlice'): return [(fe['arg'], fm_['arg'], True)]
+        if K == 'ExprOp': return [(x, y, True) for x, y in zip(fe['args'], fm_['args'])]
+        if K == 'ExprCompose': return [(x[0], y[0], And(x[1] == y[1], x[2] == y[2])) for x, y in zip(fe['args'], fm_['args'])]
+        return []
+    def head_ok(K, e, m):
+        """formula: the value fields that MatchExpr must compare before descending"""
+        fe, fm_ = e.fields, m.fields
+        if K == 'ExprMem':
+            se, sm = fe['segm'], fm_['segm']
+            if (se is None) != (sm is None): return False
+            return And(fe['size'] == fm_['size'], EQ(se, sm) if se is not None else True)
+        if K == 'ExprSlice': return And(fe['start'] == fm_['start'], fe['stop'] == fm_['stop'])
+        if K == 'ExprOp': return fe['op'] == fm_['op'] and len(fe['args']) == len(fm_['args'])
+        if K == 'ExprCompose': return len(fe['args']) == len(fm_['args'])
+        return True
+    for K, arities in M_SHAPES:
+        for ar in arities:
+            for vec in exprind.vectors(ar):
+                variants = [('same', K, vec)]
+                if K in ('ExprOp', 'ExprCompose'): variants.append(('arity', K, tuple(vec) + ('ExprId',)))
+                if K == 'ExprMem': variants.append(('segm', K, vec[:1] if ar == 2 else tuple(vec) + ('ExprId',)))
+                K2 = 'ExprCond' if K != 'ExprCond' else 'ExprSlice'
+                variants.append(('class', K2, ('ExprId',) * {'ExprCond': 3, 'ExprSlice': 1}[K2]))
+                if K == 'ExprOp': variants.append(('op', K, vec))
+                for (what, Km, vecm) in variants:
+                    for dflt in (False, True):
+                        st = {}
+                        def make_args(ctx, K=K, vec=vec, Km=Km, vecm=vecm, what=what, dflt=dflt, st=st):
+                            del calls[:]
+                            e, m = build(K, vec), build(Km, vecm, "'")
+                            if what == 'op': m.fields['op'] = '^'
+                            w = exprind.child('ExprId', 'W')
+                            st['tks'] = [w]; st['res'] = {}; st['w'] = w
+                            ins = dict((str(v), v) for o in (e, m) for v in o.fields.values() if is_sym(v))
+                            return ([e, m, st['tks']] if dflt else [e, m, st['tks'], st['res']]), ins
+                        def post(ctx, res, e, m, tks, result=None, K=K, Km=Km, dflt=dflt, st=st):
+                            cs = list(calls)
+                            wild = EQ(m, st['w'])          # m in tks
+                            def args_ok(c, kind, a, b):
+                                ok = c[0] == kind and c[1] is a and c[2] is b and c[3] is tks
+                                if dflt: return ok and isinstance(c[4], dict) and all(c[4] is x[4] for x in cs)
+                                return ok and c[4] is result
+                            def outcome(c): return {'fail': False, 'dict': c[4], 'true': True}[c[5]]
+                            # leaf and wildcard cases: exactly one test_set(e, m, tks, result), its outcome returned
+                            leaf = len(cs) == 1 and args_ok(cs[0], 'T', e, m) and res is outcome(cs[0])
+                            if K in ('ExprInt', 'ExprId'):
+                                return leaf
+                            # composite e: either m is a wildcard (leaf behaviour) or the recursion scheme
+                            head = head_ok(K, e, m) if Km == K else False
+                            prs = pairs_of(K, e, m) if Km == K else []
+                            # expected call sequence: pairs in order while guards hold and outcomes are not False
+                            i = 0; cond = []; ok_struct = True
+                            if cs and cs[0][0] == 'T':
+                                return And(wild, leaf) if is_sym(wild) else (bool(wild) and leaf)
+                            if Km != K or head is False:
+                                good = (not cs) and res is False
+                                return And(Not(wild), good) if is_sym(wild) else ((not wild) and good)
+                            # on this path the calls that were made must be a prefix of the pairs, each with the right arguments
+                            if len(cs) > len(prs): return False
+                            for c, (a, b, g) in zip(cs, prs):
+                                if not args_ok(c, 'M', a, b): return False
+                            failed = [c for c in cs if c[5] == 'fail']
+                            guards = [g for (_, _, g) in prs]
+                            if failed:
+                                # stops at the first failure and reports it
+                                good = cs[-1][5] == 'fail' and len(failed) == 1 and res is False
+                                return And(Not(wild), head, good, *guards[:len(cs)])
+                            if len(cs) < len(prs):
+                                # stopped early without a failed call: only a violated guard (compose bounds) or head justifies it
+                                if not cs and res is False:
+                                    return And(Not(wild), Or(Not(head), Not(guards[0])))
+                                return And(Not(wild), head, And(*guards[:len(cs)]), Not(guards[len(cs)]), res is False)
+                            # all pairs matched
+                            if K in ('ExprMem', 'ExprSlice'):
+                                good = res is outcome(cs[0])
+                            else:
+                                good = (res is cs[0][4]) if cs else (isinstance(res, dict) if dflt else res is result)
+                            return And(Not(wild), head, good, *guards)
+                        top = Contract(QN, post=post, frame=['result'])
+                        V = engine.verify_function(QN, node, vars(mod), top, IH, make_args)
+                        emit('C16:ind:MatchExpr[%s(%s)~%s(%s)|%s%s]' % (K, ','.join(vec) or '-', Km, ','.join(vecm) or '-', what, ';default' if dflt else ''), V, {'K': K, 'vec': list(vec)})
+    cnt = nbad = 0
+    for K, arities in M_SHAPES:
+        for ar in arities:
+            vs = list(itertools.product(CHILD_CLASSES, repeat=ar)) if ar <= 2 else exprind.vectors(ar)
+            for vec in vs:
+                cnt += 1
+                msg = native_match(K, vec)
+                if msg:
+                    nbad += 1
+                    if nbad <= 4:
+                        oid = 'C16:ind:MatchExpr[%s(%s)]:twin' % (K, ','.join(vec))
+                        rp = run.write_replay(oid, {'obligation': oid}, REPLAY % dict(verif=common.VERIF, repo=common.REPO, data={'method': 'match', 'K': K, 'vec': list(vec)}))
+                        run.ob(oid, FAILED, 'BND', 'cpython-enum', detail=msg, witness=rp, confirmed=True, func=QN)
+    run.bulk('MatchExpr recursion scheme on concrete nodes for every child-class vector (native twin)', cnt - nbad, 'BND', 'cpython-enum', 0.0, BOUNDED_OK)
+    return n[0]
